@@ -500,6 +500,11 @@ nni_url_parse_inline_inner(nng_url *url, const char *raw)
 		if (*p == '\0') {
 			return (NNG_EINVAL);
 		}
+		// A port is a number or a service name; strtol would also
+		// take leading white space and a sign.
+		if (!isalnum((unsigned char) *p)) {
+			return (NNG_EINVAL);
+		}
 		if (nni_get_port_by_name(p, &url->u_port) != 0) {
 			return (NNG_EINVAL);
 		}
